@@ -269,6 +269,27 @@ def esc2_drivers(ctx, c):
                     c.finding("%s:%s" % (f.q, U(x)[:30]), "converts a rendering that is empty for %s" % ", ".join(sorted(empties)[:3]),
                               "%s computes `%s`: %s render as '' (the table holds such values for `A EQU B` and for an EQU without operand), so the conversion raises ValueError "
                               "and the listing ends in a traceback after a successful assembly" % (f.q, U(x)[:50], ", ".join(sorted(empties))), repo.loc(f, x))
+    # bytes.fromhex wants an even number of digits: the RMB filler for a count of 0 is NumericValue(0, size_hint=0), whose rendering is folded here
+    if repo.has_cls("Program") and repo.has_cls("NumericValue"):
+        from .wid import fold_constructor as _fcz, fold_method as _fmz
+        odd = None
+        try:
+            st_ = _fcz(ctx, "NumericValue", {"value": 0, "size_hint": 0})
+            hx_ = _fmz(ctx, "NumericValue", "hex", {k_: v_ for k_, v_ in st_.items() if k_.startswith("self.")})
+            if isinstance(hx_, str) and len(hx_) % 2 == 1:
+                odd = hx_
+        except Exception:
+            odd = None
+        for mn in ("get_binary_array", "get_statements", "get_symbol_table"):
+            f = repo.cls("Program").methods.get(mn)
+            if f is None:
+                continue
+            for x in ast.walk(f.node):
+                if isinstance(x, ast.Call) and U(x.func) in ("bytes.fromhex", "bytearray.fromhex", "binascii.unhexlify") and x.args and any(
+                        isinstance(y, ast.Call) and isinstance(y.func, ast.Attribute) and y.func.attr == "hex" for y in ast.walk(x.args[0])) and _enclosing_try(f.node, x) is None and odd:
+                    c.finding("%s:%s" % (f.q, U(x.func)), "converts a rendering that can have an odd number of digits (%r for RMB 0)" % odd,
+                              "%s computes `%s`: the filler of `RMB 0` is NumericValue(0, size_hint=0), which renders as %r - an odd number of digits, for which %s raises ValueError "
+                              "after the assembly itself has succeeded" % (f.q, U(x)[:50], odd, U(x.func)), repo.loc(f, x))
     # the handlers that print a diagnostic do not raise themselves: a look-up that fails there replaces the diagnostic by a traceback
     for rel in ("assembler.py", "file_util.py"):
         if rel not in repo.modules or "main" not in repo.modules[rel].funcs:
